@@ -41,6 +41,14 @@ NEWTON_COTES = {
 }
 
 
+# interpolatory rules with NEGATIVE weights (every identity of the derived schemes is linear in the weights)
+SIGNED_RULES = [
+    (3, ([F(1, 4), F(1, 2), F(3, 4)], [F(2, 3), F(-1, 3), F(2, 3)])),                       # Milne (open Newton-Cotes)
+    (5, ([F(k, 6) for k in range(1, 6)], [F(11, 20), F(-14, 20), F(26, 20), F(-14, 20), F(11, 20)])),   # open NC, 5 points
+    (9, ([F(k, 8) for k in range(9)], [F(v, 28350) for v in (989, 5888, -928, 10496, -4540, 10496, -928, 5888, 989)])),
+]
+
+
 def enc_list(xs):
     xs = list(xs)
     return ','.join(q2s(x) for x in xs) if xs else '-'
